@@ -81,6 +81,26 @@ def handler_classes(h: ast.ExceptHandler) -> Tuple[Set[str], Set[str]]:
     return full, part - full
 
 
+def suppressed_classes(st: ast.AST) -> Tuple[Set[str], Set[str]]:
+    """(fully, partially) suppressed abstract classes of a `with [contextlib.]suppress(E, ...):` statement
+    (empty sets for any other with statement).  Only the spelling by the standard name is recognised."""
+    full: Set[str] = set()
+    part: Set[str] = set()
+    for item in getattr(st, "items", []):
+        c = item.context_expr
+        if not isinstance(c, ast.Call) or c.keywords:
+            continue
+        f = c.func
+        name = f.attr if isinstance(f, ast.Attribute) else f.id if isinstance(f, ast.Name) else None
+        if name != "suppress" or not c.args or any(isinstance(a, ast.Starred) for a in c.args):
+            continue
+        fake = ast.ExceptHandler(type=ast.Tuple(elts=list(c.args), ctx=ast.Load()), name=None, body=[])
+        fu, pa = handler_classes(fake)
+        full |= fu
+        part |= pa
+    return full, part - full
+
+
 STATS = {"cfgs_built": 0, "cfg_nodes": 0, "cfg_edges": 0, "functions": set()}
 
 
@@ -175,7 +195,15 @@ class CFG:
             return nid
         if isinstance(st, (ast.With, ast.AsyncWith)):
             nid = self._new("with", st, ast.Tuple(elts=[i.context_expr for i in st.items], ctx=ast.Load()))
-            self._edge(nid, self._seq(st.body, nxt, ctx), "n")
+            body_ctx = ctx
+            full, part = suppressed_classes(st)
+            if full or part:
+                # `with contextlib.suppress(E):` is `try: body  except E: pass`: an exception of a suppressed class
+                # raised in the body continues after the statement; a partially covered class may also propagate
+                exc_t = ((nxt,) + (ctx.exc if EXC not in full else ())) if EXC in (full | part) else ctx.exc
+                base_t = ((nxt,) + (ctx.base if BASE not in full else ())) if BASE in (full | part) else ctx.base
+                body_ctx = Ctx(tuple(dict.fromkeys(exc_t)), tuple(dict.fromkeys(base_t)), ctx.ret, ctx.brk, ctx.cont, caught=ctx.caught)
+            self._edge(nid, self._seq(st.body, nxt, body_ctx), "n")
             for item in st.items:
                 self._raise_edges(nid, item.context_expr, ctx)
             return nid
@@ -507,8 +535,13 @@ def returns_only_through(cfg: "CFG", atom: Callable[[ast.AST], Optional[bool]], 
 
 
 def reaching_defs(g: "CFG", name: str, use: int) -> List[Node]:
-    """Assignment nodes ``name = ...`` (plain Name target, incl. tuple targets and for-targets)
-    that can reach CFG node *use* without an intervening redefinition of *name*."""
+    """Assignment nodes ``name = ...`` (plain Name target, incl. tuple targets, for-targets, with-targets and
+    ``except .. as``) that can reach CFG node *use* without an intervening rebinding of *name*.
+
+    Rebindings that are not returned but end the reach of an earlier definition: ``del name``, an import or a
+    def / class statement binding the name, and an assignment expression ``(name := ..)`` evaluated at a node.
+    A binding statement that raises has not bound the name: the exception edges of a rebinding node carry the
+    earlier definition on, and the reach of a definition starts at its normal successors only."""
 
     def defines(n: Node) -> bool:
         a = n.ast
@@ -517,19 +550,49 @@ def reaching_defs(g: "CFG", name: str, use: int) -> List[Node]:
         if n.kind == "stmt" and isinstance(a, (ast.Assign, ast.AnnAssign, ast.AugAssign)):
             tgts = a.targets if isinstance(a, ast.Assign) else [a.target]
             return any(isinstance(x, ast.Name) and x.id == name for t in tgts for x in ast.walk(t) if isinstance(x, ast.Name) and isinstance(x.ctx, ast.Store))
-        if n.kind == "for" and isinstance(a, ast.For):
+        if n.kind == "for" and isinstance(a, (ast.For, ast.AsyncFor)):
             return any(isinstance(x, ast.Name) and x.id == name for x in ast.walk(a.target))
-        if n.kind == "with" and isinstance(a, ast.With):
+        if n.kind == "with" and isinstance(a, (ast.With, ast.AsyncWith)):
             return any(it.optional_vars is not None and any(isinstance(x, ast.Name) and x.id == name for x in ast.walk(it.optional_vars)) for it in a.items)
         if n.kind == "except" and isinstance(a, ast.ExceptHandler):
             return a.name == name
         return False
 
+    def rebinds_only(n: Node) -> bool:
+        a = n.ast
+        if a is None:
+            return False
+        if n.kind == "stmt" and isinstance(a, ast.Delete):
+            return any(isinstance(t, ast.Name) and t.id == name for t in a.targets)
+        if n.kind == "stmt" and isinstance(a, (ast.Import, ast.ImportFrom)):
+            return any((al.asname or al.name).split(".")[0] == name for al in a.names)
+        if n.kind == "stmt" and isinstance(a, FuncNode + (ast.ClassDef,)):
+            return getattr(a, "name", None) == name
+        ev = n.part if n.part is not None else (a if n.kind == "stmt" else None)
+        if ev is not None:
+            for x in walk_no_nested(ev):
+                if isinstance(x, ast.NamedExpr) and isinstance(x.target, ast.Name) and x.target.id == name:
+                    return True
+        return False
+
     defs = [n for n in g.nodes if defines(n)]
+    kills = {n.id for n in g.nodes if n.id != use and (defines(n) or rebinds_only(n))}
     out = []
     for d in defs:
-        blocked = {o.id for o in defs if o.id != d.id and o.id != use}
-        seen = g.reach([t for t, _l in g.succ[d.id]], blocked=blocked)
+        starts = [t for t, lab in g.succ[d.id] if lab not in (EXC, BASE)]
+        seen = set(starts)
+        dq = deque(starts)
+        while dq:
+            n = dq.popleft()
+            if n == use:
+                continue  # reached; what follows the use does not matter
+            for t, lab in g.succ[n]:
+                if n in kills and n != d.id and lab not in (EXC, BASE) and not (g.nodes[n].kind == "for" and lab == "F"):
+                    continue  # the rebinding completed: the earlier definition ends here (a loop left without
+                    # another iteration binds nothing)
+                if t not in seen:
+                    seen.add(t)
+                    dq.append(t)
         if use in seen:
             out.append(d)
     return out
